@@ -22,10 +22,7 @@ the model's `app` (hypothesis of C05_exact_paths) holds for the generated fault 
 """
 from __future__ import annotations
 
-import os
-import sys
-
-from harness import framework, gen, lean, streams, terms
+from harness import framework, gen, lean, terms
 from harness.datapath import (AttributeValidationNote, ClassValidationError, ForbiddenExtraKeysError,
                               IterableValidationError, IterableValidationNote, Session, cfg_name, cattrs)
 from harness.realise import Unrepresentable
@@ -100,10 +97,6 @@ def rejecting_value(rng, w, t, none_ok=False, in_set=False):
         return None
     c = [v for v in c if not (none_ok and v[0] == "N") and not (in_set and v[0] == "l")]
     return rng.choice(c)
-
-
-def has_set_seg(path_kinds):
-    return "set" in path_kinds
 
 
 def sites(rng, w, cfg, t, p, path, out, in_set=False, none_ok=False):
